@@ -27,3 +27,27 @@ CHECKS["C20"] = dict(
         dict(pkg="server", name="C20_lockqueue", bound="all programs of 6 operations over 8 opcodes; constructor parameters base 1..2, nodes 1..3, size 1..2", flags=["-witness", "100000"], reach=["end"]),
     ],
 )
+
+_STEP_BOUND = "one operation (LOCK / UNLOCK with symbolic terms, or a clock tick of 4..6 s through the real sweeps) from any state with <=3 holders (symbolic Count/Rcount/priority/depth 1..255) and <=2 queued requests (symbolic Count/priority)"
+
+CHECKS["C02"] = dict(
+    explanation="bounded symbolic execution of LockDB.Lock/UnLock on a real small database; ownership and depth oracle on snapshots",
+    assumptions=[],
+    harnesses=[dict(pkg="server", name="C02_step", bound=_STEP_BOUND + "; lock flags show/update excluded", flags=["-witness", "500"],
+                    reach=["end", "unlock-owner", "unlock-one-level", "unlock-first", "cancel-wait", "unlock-refused", "relock", "relock-deeper", "relock-refused"])],
+)
+CHECKS["C03"] = dict(
+    explanation="bounded symbolic execution; reply accounting on the real MemWaiter protocols' result callbacks",
+    assumptions=[],
+    harnesses=[dict(pkg="server", name="C03_step", bound=_STEP_BOUND, flags=["-witness", "500"], reach=["end", "queued", "waiter-ended", "expired"])],
+)
+CHECKS["C04"] = dict(
+    explanation="bounded symbolic execution; quiescence and service-order oracle",
+    assumptions=[],
+    harnesses=[dict(pkg="server", name="C04_step", bound=_STEP_BOUND, flags=["-witness", "500"], reach=["end", "woken", "head-blocked", "bypass-considered"])],
+)
+CHECKS["C17"] = dict(
+    explanation="bounded symbolic execution; census of holders/waiters/keys against STATE counters and reply counts",
+    assumptions=[],
+    harnesses=[dict(pkg="server", name="C17_step", bound=_STEP_BOUND, flags=["-witness", "500"], reach=["end", "key-gone", "lcount-checked"])],
+)
